@@ -44,6 +44,47 @@ MUTS = {
     "                  if fvs.len() >= 3 { lift(Rc::unwrap_or_clone(statement_expand), state) } else { statement_expand.shrink(state) } }\n"),
 }
 
+# ---- widened leaf tests (near-leaf mutants): every leaf test of fun2core / core2axcut, widened to the nearest
+# non-leaf shape.  fun2core: an extra disjunct in front of `matches!(cont, XVar)` of ifc.rs / case.rs.
+F2C_OLD = "matches!(\n                cont,\n                core_lang::syntax::Term::XVar(_)\n            )"
+T = "core_lang::syntax::Term"; ST = "core_lang::syntax::Statement"; MU = "core_lang::syntax::terms::Mu"
+F2C_WIDEN = {
+ # seeded change (A): `mu~x. exit p` for ANY producer p
+ 'exit-any': f"matches!(&cont, {T}::Mu({MU} {{ statement, .. }}) if matches!(&**statement, {ST}::Exit(_)))",
+ # `mu~x. <p | a>`: return of any producer to a covariable
+ 'ret-any': f"matches!(&cont, {T}::Mu({MU} {{ statement, .. }}) if matches!(&**statement, {ST}::Cut(core_lang::syntax::statements::Cut {{ consumer, .. }}) if matches!(**consumer, {T}::XVar(_))))",
+ # `mu~x. f(..)`: any call
+ 'call-any': f"matches!(&cont, {T}::Mu({MU} {{ statement, .. }}) if matches!(&**statement, {ST}::Call(_)))",
+ # a destructor / a case as continuation
+ 'xtor-cont': f"matches!(cont, {T}::Xtor(_))",
+ 'xcase-cont': f"matches!(cont, {T}::XCase(_))",
+}
+for f, fname in (('ifc', 'ifc.rs'), ('case', 'case.rs')):
+    for w, extra in F2C_WIDEN.items():
+        MUTS[f'N-{f}-{w}'] = (S + '/fun2core/src/terms/' + fname, F2C_OLD, f"({extra} || matches!(cont, {T}::XVar(_)))")
+
+# core2axcut: an extra disjunct in the invoke test of shrink_critical_pairs, or an extra statement form
+CUT_OLD = "if (matches!(**producer, FsTerm::XVar(_)) && matches!(**consumer, FsTerm::Xtor(_)))\n"
+def cutw(cond): return (S + '/core2axcut/src/statements/cut.rs', CUT_OLD, f"if ({cond})\n                    || (matches!(**producer, FsTerm::XVar(_)) && matches!(**consumer, FsTerm::Xtor(_)))\n")
+def pc(p, c): return f"(matches!(**producer, FsTerm::{p}(_)) && matches!(**consumer, FsTerm::{c}(_)))"
+MUB = "matches!(&**consumer, FsTerm::Mu(Mu { statement, .. }) if matches!(&**statement, FsStatement::%s))"
+CUT_WIDEN = {
+ 'switch': pc('XVar', 'XCase'),            # seeded change (B): <x | case {..}>
+ 'cocase': pc('XCase', 'XVar'),
+ 'rename': pc('XVar', 'Mu'), 'corename': pc('Mu', 'XVar'),
+ 'lit': pc('Literal', 'Mu'), 'op': pc('Op', 'Mu'), 'letxtor': pc('Xtor', 'Mu'), 'known': pc('Xtor', 'XCase'),
+ 'create': pc('XCase', 'Mu'),
+ 'bind-exit': "(matches!(**producer, FsTerm::Mu(_)) && " + MUB % "Exit(_)" + ")",
+ 'bind-call': "(matches!(**producer, FsTerm::Mu(_)) && " + MUB % "Call(_)" + ")",
+ 'bind-cut': "(matches!(**producer, FsTerm::Mu(_)) && " + MUB % "Cut(_)" + ")",
+}
+for w, cond in CUT_WIDEN.items():
+    MUTS[f'N-cut-{w}'] = cutw(cond)
+MUTS['N-cut-two-xtors'] = (S + '/core2axcut/src/statements/cut.rs', "let shrunk_statement_expand = if xtors.len() <= 1\n", "let shrunk_statement_expand = if xtors.len() <= 2\n")
+STMT_OLD = "FsStatement::Exit(_) | FsStatement::Call(_)\n"
+MUTS['N-cut-ifc'] = (S + '/core2axcut/src/statements/cut.rs', STMT_OLD, "FsStatement::Exit(_) | FsStatement::Call(_) | FsStatement::IfC(_)\n")
+MUTS['N-cut-print'] = (S + '/core2axcut/src/statements/cut.rs', STMT_OLD, "FsStatement::Exit(_) | FsStatement::Call(_) | FsStatement::PrintI64(_)\n")
+
 def sh(c, **k):
     return subprocess.run(c, shell=True, capture_output=True, text=True, **k)
 
